@@ -895,3 +895,25 @@ CONTROLS += [
             self.filename = m.group(3)
             self.line_offset = 1 + lineno - int(m.group(2))''')),
 ]
+
+CONTROLS += [
+    # -------------------------------------------------- normaliser soundness: aliases that are NOT safe to see through
+    pos("index computed before the append with the after-append formula", ["C01"], ["R1.6"],
+        (P, '''            params.append(param)
+            if at_type:''', '''            param_idx = len(params) - 1
+            params.append(param)
+            if at_type:'''),
+        (P, '''                        param_idx=len(params) - 1,''', '''                        param_idx=param_idx,''')),
+    neg("index computed before the append with the before-append formula",
+        (P, '''            params.append(param)
+            if at_type:''', '''            param_idx = len(params)
+            params.append(param)
+            if at_type:'''),
+        (P, '''                        param_idx=len(params) - 1,''', '''                        param_idx=param_idx,''')),
+    pos("length taken before the append, decremented after it", ["C01"], ["R1.6"],
+        (P, '''            params.append(param)
+            if at_type:''', '''            n_before = len(params)
+            params.append(param)
+            if at_type:'''),
+        (P, '''                        param_idx=len(params) - 1,''', '''                        param_idx=n_before - 1,''')),
+]
